@@ -18,7 +18,8 @@ GEN_FILES = ["gen/C16Table.v"]
 SHARD = 250
 RULE = ("pairs/triples of Table/Schema/Database/AliasedQuery construction programs: a random object, then near copies "
         "(same identity through another construction route: str / tuple / list / Schema object / attribute access; or "
-        "exactly one of name, a schema level, a schema class, alias, for_ / for_portion criterion, query body changed); "
+        "exactly one of name, a schema level, a schema class, alias, for_ / for_portion criterion, the Query class the "
+        "table is bound to (all ten dialect classes, query_cls= or X.Table), query body changed); "
         "intermediate objects are observed (hash, ==, str, set membership) at random construction steps before "
         "as_/for_/for_portion/attribute access, and every object is compared with a twin built without that history; "
         "plus independent and cross-class objects, sometimes a sub-query or set operation (not a subject: only its "
@@ -38,7 +39,7 @@ TRUSTED = [
 ASSUMPTIONS = [
     "CPython container semantics: list membership is `item is x or item == x`; set/dict lookup compares only entries "
     "with an equal hash, by `is` then ==; building/looking up hashes the objects (TypeError if unhashable)",
-    "names, aliases are str, alias may be None; Table._query_cls and AliasedQuery.alias (as_) are not varied",
+    "names, aliases are str, alias may be None; AliasedQuery.alias (as_) is not varied",
 ]
 ALLOWED_AXIOMS = []
 
@@ -77,6 +78,16 @@ def _other_pool():
 
 
 N_FOR, N_PORTION, N_BODY, N_OTHER = 6, 3, 3, 5
+
+# the Query classes a table can be bound to (Table(.., query_cls=X) or X.Table(..)); None = the default (Query)
+QCLS = ["Query", "MySQLQuery", "OracleQuery", "PostgreSQLQuery", "MSSQLQuery", "VerticaQuery", "RedshiftQuery",
+        "SQLLiteQuery", "ClickHouseQuery", "SnowflakeQuery"]
+
+
+def _qcls(name):
+    import pypika
+    import pypika.dialects
+    return getattr(pypika, name, None) or getattr(pypika.dialects, name)
 
 
 def for_text(i):
@@ -146,6 +157,12 @@ def build_obj(p):
         return AliasedQuery(p["name"]) if p["body"] is None else AliasedQuery(p["name"], _body_pool()[p["body"]])
     r = p["route"]
     kw = {} if p["alias"] is None else {"alias": p["alias"]}
+    q = p.get("qcls")
+    if q is not None and q[0] == "cm":
+        def Table(name, **k):                     # noqa: the classmethod route X.Table(name, ...)
+            return _qcls(q[1]).Table(name, **k)
+    elif q is not None:
+        kw["query_cls"] = _qcls(q[1])
     if r[0] == "none":
         t = Table(p["name"], **kw)
     elif r[0] == "str":
@@ -285,8 +302,9 @@ def prog_coq(p):
         return "(ProgS %s)" % sprog_coq(p["prog"])
     if p["k"] == "A":
         return "(ProgA %s %s)" % (S(p["name"]), "None" if p["body"] is None else "(Some %s)" % S(body_text(p["body"])))
-    return "(ProgT {| p_name := %s; p_route := %s; p_alias := %s; p_ops := %s |})" % (
-        S(p["name"]), route_coq(p["route"]), OS(p["alias"]), L([op_coq(o) for o in p["ops"]]))
+    return "(ProgT {| p_name := %s; p_route := %s; p_alias := %s; p_qcls := %s; p_ops := %s |})" % (
+        S(p["name"]), route_coq(p["route"]), OS(p["alias"]), S(p["qcls"][1] if p.get("qcls") else "Query"),
+        L([op_coq(o) for o in p["ops"]]))
 
 
 def _rb_coq(r):
@@ -392,6 +410,11 @@ def probe_cfg():
                      (lambda: T("t", schema="s", alias="a").for_portion(pp[0]),
                       lambda: T("t", schema="s", alias="a").for_portion(pp[1]))],
     }
+    M, O_, Q = _qcls("MySQLQuery"), _qcls("OracleQuery"), _qcls("Query")
+    t_probes["TQcls"] = [(lambda: T("t"), lambda: T("t", query_cls=M)),
+                         (lambda: T("t", schema="s", alias="a", query_cls=O_), lambda: T("t", schema="s", alias="a", query_cls=Q)),
+                         (lambda: M.Table("t", alias="a"), lambda: O_.Table("t", alias="a")),
+                         (lambda: T("t", query_cls=_qcls("ClickHouseQuery")).for_(fp[0]), lambda: T("t", query_cls=_qcls("SnowflakeQuery")).for_(fp[0]))]
     ts_probes = {k: [((lambda f=f: T("t", schema=f())), (lambda g=g: T("t", schema=g()))) for f, g in v]
                  for k, v in s_probes.items()}
     a_probes = {
@@ -514,7 +537,7 @@ def spec_of(p):
         elif op[0] == "portion":
             po = op[1]
     return {"fam": "T", "kind": "Table", "name": p["name"], "schema": ch, "alias": alias, "for_": f, "for_portion": po,
-            "dbs": dbs}
+            "dbs": dbs, "qcls": p["qcls"][1] if p.get("qcls") else "Query"}
 
 
 IDENTITY_ATTRS = {"T": ["name", "schema", "alias", "for_", "for_portion"], "S": ["schema"], "A": ["name"], "O": ["idx"]}
@@ -587,8 +610,9 @@ def oracle(case, outcome):
                 add(i, "-", "symmetric", "%s == %s is %r, the converse %r" % (desc(i), desc(j), e, eq[j][i]))
             if i < j:
                 da = diff_attrs(specs[i], specs[j])
-                first = (da[0] if da else "-") if da is not None else "class"
-                same = da == [] and (specs[i]["fam"] != "A" or specs[i]["body"] == specs[j]["body"])
+                qdiff = da is not None and specs[i].get("qcls") != specs[j].get("qcls")
+                first = (da[0] if da else ("query_cls" if qdiff else "-")) if da is not None else "class"
+                same = da == [] and not qdiff and (specs[i]["fam"] != "A" or specs[i]["body"] == specs[j]["body"])
                 if same and e is not True:
                     why = "class" if specs[i]["kind"] != specs[j]["kind"] or specs[i].get("dbs") != specs[j].get("dbs") else "route"
                     add(i, why, "same-identity-equal", "%s != %s although name, schema chain, alias and temporal clause "
@@ -619,7 +643,8 @@ def oracle(case, outcome):
                 break
             if eq[j][i] is True and heq[i][j] is not True:
                 da = diff_attrs(specs[i], specs[j])
-                attr = (da[0] if da else "-") if da is not None else "class"
+                qdiff = da is not None and specs[i].get("qcls") != specs[j].get("qcls")
+                attr = (da[0] if da else ("query_cls" if qdiff else "-")) if da is not None else "class"
                 break
         add(i, attr, "membership-agrees", "%s in [..]/{..}/dict of %s: list says %r, set %r, dict %r" % (
             desc(i), [desc(j) for j in js], rl, rs, rd))
@@ -657,7 +682,8 @@ def gen_spec(rng, fam):
     elif r < 0.34:
         temp = ["portion", rng.randrange(N_PORTION)]
     return {"fam": "T", "name": rng.choice(NAMES), "chain": chain or None,
-            "alias": rng.choice([None, None] + ALIASES), "temp": temp}
+            "alias": rng.choice([None, None] + ALIASES), "temp": temp,
+            "qcls": rng.choice(QCLS) if rng.random() < 0.3 else "Query"}
 
 
 def mutate(rng, sp):
@@ -725,8 +751,11 @@ def mutate(rng, sp):
             sp["name"] = sp["name"] + rng.choice([" ", '" "']) + sp["alias"]
             sp["alias"] = None
         return sp
-    what = rng.choice(["name", "schema", "schema", "alias", "alias", "temp", "temp", "temp"])
-    if what == "name":
+    what = rng.choice(["name", "schema", "schema", "alias", "alias", "temp", "temp", "temp", "qcls", "qcls"])
+    if what == "qcls":
+        # the Query class the table is bound to: not part of its identity (neither == nor hash may tell)
+        sp["qcls"] = rng.choice([x for x in QCLS if x != sp.get("qcls", "Query")])
+    elif what == "name":
         sp["name"] = rng.choice([x for x in NAMES if x != sp["name"]])
     elif what == "schema":
         sp["chain"] = mut_chain(sp["chain"], True) or None
@@ -767,6 +796,8 @@ def realize(rng, sp, bad=None):
     if sp["fam"] == "O":
         return {"k": "O", "idx": sp["idx"]}
     ch = sp["chain"]
+    qn = sp.get("qcls", "Query")
+    qcls = None if (qn == "Query" and rng.random() < 0.8) else [rng.choice(["kw", "cm"]), qn]
     alias_ctor = sp["alias"] is not None and rng.random() < 0.5
     if bad in ("empty_tuple", "empty_list"):
         route = ["tuple" if bad == "empty_tuple" else "list", []]
@@ -779,7 +810,7 @@ def realize(rng, sp, bad=None):
             opts += ["tuple", "tuple", "list"]
             if len(ch) == 1:
                 opts += ["str", "str"]
-        if not ch[-1][1]:
+        if not ch[-1][1] and qcls is None:
             opts += ["attr", "attr"]
         kind = rng.choice(opts)
         if kind == "str":
@@ -811,7 +842,8 @@ def realize(rng, sp, bad=None):
         with_obs.append(o)
     if ops and rng.random() < P_OBS:
         with_obs.append(["obs"])
-    return {"k": "T", "name": sp["name"], "route": route, "alias": sp["alias"] if alias_ctor else None, "ops": with_obs}
+    return {"k": "T", "name": sp["name"], "route": route, "alias": sp["alias"] if alias_ctor else None, "ops": with_obs,
+            "qcls": qcls}
 
 
 def gen_case(rng):
@@ -848,8 +880,8 @@ def gen_cases(rng, tier):
     return [gen_case(rng) for _ in range(n)]
 
 
-def _t(name, route=None, alias=None, ops=None):
-    return {"k": "T", "name": name, "route": route or ["none"], "alias": alias, "ops": ops or []}
+def _t(name, route=None, alias=None, ops=None, qcls=None):
+    return {"k": "T", "name": name, "route": route or ["none"], "alias": alias, "ops": ops or [], "qcls": qcls}
 
 
 def _corpus_files():
@@ -895,6 +927,13 @@ def _builtin_corpus():
         {"objs": [_t("t", ["attr", ["obs", ["attr", ["obs", ["new", True, "d"]], "s"]]], ops=[["obs"], ["portion", 0]]),
                   _t("t", ["tuple", ["d", "s"]], ops=[["portion", 0]]),
                   {"k": "S", "prog": ["obs", ["sub", False, "s", ["obs", ["new", False, "d"]]]]}]},
+        # the same table bound to different Query classes (query_cls=, X.Table): one identity, one hash
+        {"objs": [_t("t"), _t("t", qcls=["kw", "MySQLQuery"]), _t("t", qcls=["cm", "OracleQuery"])]},
+        {"objs": [_t("abc", ["tuple", ["d", "s"]], alias="x", qcls=["cm", "SnowflakeQuery"]),
+                  _t("abc", ["tuple", ["d", "s"]], alias="x", qcls=["kw", "ClickHouseQuery"]),
+                  _t("abc", ["obj", ["attr", ["new", True, "d"], "s"]], ops=[["as", "x"]], qcls=["kw", "Query"])]},
+        {"objs": [_t("t", ops=[["obs"], ["for", 0]], qcls=["kw", "MSSQLQuery"]), _t("t", ops=[["for", 0]]),
+                  _t("t", ops=[["for", 0]], qcls=["cm", "VerticaQuery"])]},
         # subjects next to sub-queries / set operations (187adc3: `table in [set_operation]` was truthy for every table)
         {"objs": [_t("t"), {"k": "A", "name": "t", "body": None}, {"k": "S", "prog": ["new", False, "t"]}, {"k": "O", "idx": 3}]},
         {"objs": [_t("t"), _t("u", alias="t"), {"k": "O", "idx": 2}]},
@@ -939,6 +978,7 @@ def histogram(cases):
                 continue
             if p["k"] == "T":
                 inc("route=" + p["route"][0])
+                inc("query_cls=" + (p["qcls"][1] if p.get("qcls") else "default"))
                 for op in p["ops"]:
                     inc("op=" + op[0])
                 if p != strip_obs(p):
